@@ -863,11 +863,20 @@ class FakeOS:
     def __getattr__(self, name):
         return getattr(_os, name)
 
+    def _dirpath(self, path):
+        if isinstance(path, int):
+            h = self._raw(path)
+            if not isinstance(h, FakeOS._DirHandle):
+                raise Unmodelled("listing descriptor %r, which is not a simulated directory" % (path,))
+            return h._path
+        return path
+
     def listdir(self, path="."):
-        return self._w.sys_listdir(path)
+        return self._w.sys_listdir(self._dirpath(path))
 
     def scandir(self, path="."):
         # one getdents pass, like listdir(); entry types are looked up on demand
+        path = self._dirpath(path)
         names = self._w.sys_listdir(path)
         return _ScanDir(self._w, path, names)
 
@@ -917,11 +926,39 @@ class FakeOS:
     # ---- descriptor-level reads of simulated files ------------------------
     _FD0 = 1 << 20
 
+    class _DirHandle:
+        """An open directory: the base of *at() calls and of listdir(fd)."""
+        def __init__(self, path):
+            self._path = path
+
+    def _at(self, path, dir_fd):
+        """The absolute spelling of *path* taken relative to the open directory *dir_fd*."""
+        path = _os.fsdecode(path)
+        if dir_fd is None or path.startswith("/"):
+            return path
+        h = self._raw(dir_fd)
+        if not isinstance(h, FakeOS._DirHandle):
+            raise Unmodelled("dir_fd=%r is not a simulated directory" % (dir_fd,))
+        return h._path.rstrip("/") + "/" + path
+
     def open(self, path, flags=0, mode=0o777, *, dir_fd=None):
-        if flags & (_os.O_WRONLY | _os.O_RDWR | _os.O_CREAT | _os.O_TRUNC | _os.O_APPEND) or dir_fd is not None:
+        if flags & (_os.O_WRONLY | _os.O_RDWR | _os.O_CREAT | _os.O_TRUNC | _os.O_APPEND):
             raise Unmodelled("os.open(%r, flags=%#o)" % (path, flags))
-        raw = self._w.sys_open(_os.fsdecode(path))
-        tab = self._w.__dict__.setdefault("_fdtab", {})
+        path = self._at(path, dir_fd)
+        w = self._w
+        tab = w.__dict__.setdefault("_fdtab", {})
+        try:
+            isdir = w.resolve(path)[0] == "dir"
+        except OSError:
+            isdir = False
+        if isdir:
+            w.sys_listdir(path)         # (permission to search the directory is checked when it is opened)
+            raw = FakeOS._DirHandle(posixpath.normpath(path))
+        elif flags & getattr(_os, "O_DIRECTORY", 0):
+            w.sys_stat(path, op="open")  # ENOENT / EACCES first
+            raise oserr(errno.ENOTDIR, path)
+        else:
+            raw = w.sys_open(path)
         fd = self._FD0 + len(tab) + 1
         while fd in tab:
             fd += 1
@@ -939,6 +976,8 @@ class FakeOS:
         raw = self._raw(fd)
         if raw is None:
             return _os.read(fd, n)
+        if isinstance(raw, FakeOS._DirHandle):
+            raise oserr(errno.EISDIR)
         buf = bytearray(n)
         k = raw.readinto(buf)
         return bytes(buf[:k or 0])
@@ -988,14 +1027,16 @@ class FakeOS:
         locals()[_n] = _unmodelled(_n)
     del _n, _unmodelled
 
-    def readlink(self, path):
-        return self._w.sys_readlink(path)
+    def readlink(self, path, *, dir_fd=None):
+        return self._w.sys_readlink(self._at(path, dir_fd))
 
-    def stat(self, path, **kw):
-        return self._w.sys_stat(path)
+    def stat(self, path, *, dir_fd=None, follow_symlinks=True):
+        if isinstance(path, int):
+            return self.fstat(path)
+        return self._w.sys_stat(self._at(path, dir_fd), follow=follow_symlinks)
 
-    def lstat(self, path):
-        return self._w.sys_stat(path, follow=False, op="lstat")
+    def lstat(self, path, *, dir_fd=None):
+        return self._w.sys_stat(self._at(path, dir_fd), follow=False, op="lstat")
 
     def access(self, path, mode):
         w = self._w
